@@ -17,6 +17,15 @@ def isFile (k : Key) : Prog Bool := do
   | .err e => .fail (.transport e)
   | _ => .fail (.transport .other)
 
+/-- `Archive::open`: the header must exist, parse, and name version 0.6. -/
+def archiveOpen : Prog Unit := do
+  match ← perform (.read .header) with
+  | .err .notFound => .fail .notAnArchive
+  | .err e => .fail (.transport e)
+  | .val (.header v) => if v = [48, 46, 54] then pure () else .fail .unsupportedArchiveVersion
+  | .val _ => .fail .json
+  | _ => .fail (.transport .other)
+
 /-- `Archive::list_band_ids`: directories of the archive root whose name parses as a band id, sorted. -/
 def listBandIds : Prog (List Nat) := do
   match ← perform (.listDir .root) with
